@@ -1,5 +1,1156 @@
 (* Proofs about Model/TextBuilder.v (C37). *)
-From Coq Require Import ZArith List Bool Lia.
+From Coq Require Import ZArith List Bool Lia Arith.
 Import ListNotations.
 Require Import Grist.Model.TextBuilder.
 Open Scope Z_scope.
+
+(* ---------- A. lists indexed by Z ---------- *)
+Lemma skipn_skipn {A} (x y : nat) (l : list A) : skipn x (skipn y l) = skipn (x + y) l.
+Proof.
+  revert l; induction y as [|y IH]; intros l.
+  - rewrite Nat.add_0_r; reflexivity.
+  - rewrite Nat.add_succ_r. destruct l as [|a l]; cbn [skipn]; [apply skipn_nil | apply IH].
+Qed.
+Lemma len_nonneg {A} (l : list A) : 0 <= len l.
+Proof. unfold len; lia. Qed.
+Lemma len_nil {A} : len (@nil A) = 0.
+Proof. reflexivity. Qed.
+Lemma len_cons {A} (x : A) l : len (x :: l) = 1 + len l.
+Proof. unfold len; cbn [length]; lia. Qed.
+Lemma len_app {A} (l m : list A) : len (l ++ m) = len l + len m.
+Proof. unfold len; rewrite app_length; lia. Qed.
+Lemma len_map {A B} (f : A -> B) l : len (map f l) = len l.
+Proof. unfold len; rewrite map_length; reflexivity. Qed.
+Lemma len_from {A} (l : list A) a : 0 <= a <= len l -> len (from l a) = len l - a.
+Proof. unfold len, from; intros; rewrite skipn_length; lia. Qed.
+Lemma len_sub {A} (l : list A) a b : 0 <= a <= b -> b <= len l -> len (sub l a b) = b - a.
+Proof. unfold len, sub; intros; rewrite firstn_length, skipn_length; lia. Qed.
+
+Lemma sub_nil_ge {A} (l : list A) a b : b <= a -> sub l a b = [].
+Proof. unfold sub; intros; replace (Z.to_nat (b - a)) with O by lia; reflexivity. Qed.
+
+Lemma from_0 {A} (l : list A) : from l 0 = l.
+Proof. reflexivity. Qed.
+Lemma from_all {A} (l : list A) : from l (len l) = [].
+Proof. unfold from, len; rewrite Nat2Z.id; apply skipn_all. Qed.
+Lemma sub_0_len {A} (l : list A) : sub l 0 (len l) = l.
+Proof. unfold sub, len; cbn [Z.to_nat skipn]; rewrite Z.sub_0_r, Nat2Z.id; apply firstn_all. Qed.
+
+Lemma from_app_l {A} (l m : list A) a : 0 <= a <= len l -> from (l ++ m) a = from l a ++ m.
+Proof.
+  unfold from, len; intros; rewrite skipn_app.
+  replace (Z.to_nat a - length l)%nat with O by lia; reflexivity.
+Qed.
+Lemma from_app_r {A} (l m : list A) a : len l <= a -> from (l ++ m) a = from m (a - len l).
+Proof.
+  unfold from, len; intros; rewrite skipn_app, skipn_all2 by lia.
+  replace (Z.to_nat (a - Z.of_nat (length l))) with (Z.to_nat a - length l)%nat by lia; reflexivity.
+Qed.
+Lemma sub_app_l {A} (l m : list A) a b : 0 <= a -> b <= len l -> sub (l ++ m) a b = sub l a b.
+Proof.
+  unfold sub, len; intros.
+  destruct (Z_le_gt_dec b a) as [Hle|Hgt].
+  - replace (Z.to_nat (b - a)) with O by lia; reflexivity.
+  - rewrite skipn_app, firstn_app, skipn_length.
+    replace (Z.to_nat (b - a) - (length l - Z.to_nat a))%nat with O by lia.
+    cbn [firstn]; rewrite app_nil_r; reflexivity.
+Qed.
+Lemma sub_app_r {A} (l m : list A) a b : len l <= a -> sub (l ++ m) a b = sub m (a - len l) (b - len l).
+Proof.
+  unfold sub, len; intros; rewrite skipn_app, skipn_all2 by lia; cbn [app].
+  replace (Z.to_nat (a - Z.of_nat (length l))) with (Z.to_nat a - length l)%nat by lia.
+  replace (b - Z.of_nat (length l) - (a - Z.of_nat (length l))) with (b - a) by lia; reflexivity.
+Qed.
+Lemma sub_map {A B} (f : A -> B) l a b : sub (map f l) a b = map f (sub l a b).
+Proof. unfold sub; rewrite skipn_map, firstn_map; reflexivity. Qed.
+Lemma from_map {A B} (f : A -> B) l a : from (map f l) a = map f (from l a).
+Proof. unfold from; apply skipn_map. Qed.
+
+(* l[a:c] = l[a:b] ++ l[b:c],  l[a:] = l[a:b] ++ l[b:] *)
+Lemma sub_split {A} (l : list A) a b c : 0 <= a <= b -> b <= c -> sub l a c = sub l a b ++ sub l b c.
+Proof.
+  unfold sub; intros.
+  replace (Z.to_nat (c - a)) with (Z.to_nat (b - a) + Z.to_nat (c - b))%nat by lia.
+  replace (Z.to_nat b) with (Z.to_nat (b - a) + Z.to_nat a)%nat by lia.
+  rewrite <- skipn_skipn.
+  generalize (skipn (Z.to_nat a) l) as m; generalize (Z.to_nat (b - a)) as n; generalize (Z.to_nat (c - b)) as k.
+  intros k n; induction n as [|n IH]; intros m; [reflexivity|].
+  destruct m as [|x m]; cbn [plus firstn skipn app].
+  - rewrite firstn_nil; reflexivity.
+  - rewrite IH; reflexivity.
+Qed.
+Lemma from_split {A} (l : list A) a b : 0 <= a <= b -> from l a = sub l a b ++ from l b.
+Proof.
+  unfold sub, from; intros.
+  replace (Z.to_nat b) with (Z.to_nat (b - a) + Z.to_nat a)%nat by lia.
+  rewrite <- skipn_skipn, firstn_skipn; reflexivity.
+Qed.
+Lemma from_from {A} (l : list A) a b : 0 <= a -> 0 <= b -> from (from l a) b = from l (a + b).
+Proof. unfold from; intros; rewrite skipn_skipn; f_equal; lia. Qed.
+Lemma sub_from {A} (l : list A) c a b : 0 <= c -> 0 <= a -> sub (from l c) a b = sub l (c + a) (c + b).
+Proof.
+  unfold sub, from; intros; rewrite skipn_skipn.
+  replace (c + b - (c + a)) with (b - a) by lia. do 2 f_equal; lia.
+Qed.
+
+Lemma znth_app_l {A} (l m : list A) k d : 0 <= k < len l -> znth (l ++ m) k d = znth l k d.
+Proof. unfold znth, len; intros; apply app_nth1; lia. Qed.
+Lemma znth_app_r {A} (l m : list A) k d : len l <= k -> znth (l ++ m) k d = znth m (k - len l) d.
+Proof. unfold znth, len; intros; rewrite app_nth2 by lia; f_equal; lia. Qed.
+Lemma znth_map {A B} (f : A -> B) l k d : 0 <= k < len l -> znth (map f l) k (f d) = f (znth l k d).
+Proof. unfold znth; intros; apply map_nth. Qed.
+Lemma nth_firstn_lt {A} (l : list A) n k d : (n < k)%nat -> nth n (firstn k l) d = nth n l d.
+Proof.
+  revert n k; induction l as [|x l IH]; intros n k H.
+  - rewrite firstn_nil; reflexivity.
+  - destruct k as [|k]; [lia|]. destruct n as [|n]; cbn [firstn nth]; [reflexivity | apply IH; lia].
+Qed.
+Lemma nth_skipn_add {A} (l : list A) n k d : nth n (skipn k l) d = nth (k + n) l d.
+Proof.
+  revert k; induction l as [|x l IH]; intros k.
+  - rewrite skipn_nil. destruct n, k; reflexivity.
+  - destruct k as [|k]; cbn [skipn plus nth]; [reflexivity | apply IH].
+Qed.
+Lemma znth_sub {A} (l : list A) a b k d : 0 <= a -> 0 <= k < b - a ->
+  znth (sub l a b) k d = znth l (a + k) d.
+Proof.
+  unfold znth, sub; intros. rewrite nth_firstn_lt by lia. rewrite nth_skipn_add. f_equal; lia.
+Qed.
+Lemma znth_from {A} (l : list A) a k d : 0 <= a -> 0 <= k -> znth (from l a) k d = znth l (a + k) d.
+Proof. unfold znth, from; intros. rewrite nth_skipn_add. f_equal; lia. Qed.
+
+(* ---------- B. Python primitives ---------- *)
+Lemma text_eqb_refl t : text_eqb t t = true.
+Proof. induction t as [|x t IH]; cbn [text_eqb]; [reflexivity | rewrite Z.eqb_refl, IH; reflexivity]. Qed.
+Lemma text_eqb_eq a b : text_eqb a b = true -> a = b.
+Proof.
+  revert b; induction a as [|x a IH]; intros [|y b] H; cbn [text_eqb] in H; try discriminate; [reflexivity|].
+  apply andb_prop in H as [H1 H2]. apply Z.eqb_eq in H1. f_equal; auto.
+Qed.
+
+Lemma py_slice_sub {A} (l : list A) a b : 0 <= a <= len l -> 0 <= b <= len l -> py_slice l a b = sub l a b.
+Proof.
+  intros Ha Hb. unfold py_slice, sub, clamp.
+  destruct (a <? 0) eqn:E1; [apply Z.ltb_lt in E1; lia|].
+  destruct (b <? 0) eqn:E2; [apply Z.ltb_lt in E2; lia|].
+  rewrite !Z.min_l by lia. reflexivity.
+Qed.
+Lemma py_slice_from_from {A} (l : list A) a : 0 <= a <= len l -> py_slice_from l a = from l a.
+Proof.
+  intros Ha. unfold py_slice_from, from, clamp.
+  destruct (a <? 0) eqn:E1; [apply Z.ltb_lt in E1; lia|]. rewrite Z.min_l by lia. reflexivity.
+Qed.
+
+(* sorted (non-decreasing) lists of offsets *)
+Fixpoint sorted (a : list Z) : Prop :=
+  match a with
+  | [] => True
+  | x :: t => Forall (fun y => x <= y) t /\ sorted t
+  end.
+
+(* number of leading elements <= x; on a sorted list: the number of elements <= x *)
+Fixpoint count_le (a : list Z) (x : Z) : Z :=
+  match a with
+  | [] => 0
+  | y :: t => if y <=? x then 1 + count_le t x else 0
+  end.
+
+Lemma count_le_range a x : 0 <= count_le a x <= len a.
+Proof.
+  induction a as [|y t IH]; cbn [count_le]; [unfold len; cbn; lia|].
+  rewrite len_cons. destruct (y <=? x); lia.
+Qed.
+Lemma count_le_below a x i : 0 <= i < count_le a x -> znth a i 0 <= x.
+Proof.
+  revert i; induction a as [|y t IH]; intros i Hi; cbn [count_le] in Hi; [lia|].
+  destruct (y <=? x) eqn:E; [|lia]. apply Z.leb_le in E.
+  destruct (Z.eq_dec i 0) as [->|Hne]; [exact E|].
+  unfold znth. replace (Z.to_nat i) with (S (Z.to_nat (i - 1))) by lia. cbn [nth]. apply IH. lia.
+Qed.
+Lemma count_le_above a x i : sorted a -> count_le a x <= i < len a -> x < znth a i 0.
+Proof.
+  revert i; induction a as [|y t IH]; intros i Hs Hi; [unfold len in Hi; cbn in Hi; lia|].
+  cbn [count_le sorted] in *. rewrite len_cons in Hi. destruct Hs as [Hall Hs].
+  pose proof (count_le_range t x) as Hr.
+  destruct (y <=? x) eqn:E.
+  - unfold znth. replace (Z.to_nat i) with (S (Z.to_nat (i - 1))) by lia. cbn [nth]. apply IH; [exact Hs|lia].
+  - apply Z.leb_gt in E. destruct (Z.eq_dec i 0) as [->|Hne]; [exact E|].
+    unfold znth. replace (Z.to_nat i) with (S (Z.to_nat (i - 1))) by lia. cbn [nth].
+    rewrite Forall_forall in Hall. specialize (Hall (nth (Z.to_nat (i - 1)) t 0)).
+    assert (In (nth (Z.to_nat (i - 1)) t 0) t) by (apply nth_In; unfold len in Hi; lia). specialize (Hall H). lia.
+Qed.
+
+Lemma bisect_loop_spec a x : sorted a -> forall fuel lo hi,
+  0 <= lo <= count_le a x -> count_le a x <= hi <= len a -> hi - lo < Z.of_nat fuel ->
+  bisect_loop fuel a x lo hi = count_le a x.
+Proof.
+  intros Hs fuel; induction fuel as [|f IH]; intros lo hi Hlo Hhi Hf; [lia|].
+  cbn [bisect_loop]. destruct (lo <? hi) eqn:E; [apply Z.ltb_lt in E | apply Z.ltb_ge in E; lia].
+  assert (Hmid : lo <= (lo + hi) / 2 < hi) by (split; [apply Z.div_le_lower_bound | apply Z.div_lt_upper_bound]; lia).
+  destruct (x <? nth (Z.to_nat ((lo + hi) / 2)) a 0) eqn:E2.
+  - apply Z.ltb_lt in E2. apply IH; try lia.
+    destruct (Z_lt_le_dec ((lo + hi) / 2) (count_le a x)) as [Hlt|Hge]; [|lia].
+    pose proof (count_le_below a x ((lo + hi) / 2)) as Hb. unfold znth in Hb. lia.
+  - apply Z.ltb_ge in E2. apply IH; try lia.
+    destruct (Z_lt_le_dec ((lo + hi) / 2) (count_le a x)) as [Hlt|Hge]; [lia|].
+    pose proof (count_le_above a x ((lo + hi) / 2) Hs) as Hb. unfold znth in Hb. lia.
+Qed.
+Lemma bisect_right_sorted a x : sorted a -> bisect_right a x = count_le a x.
+Proof.
+  intros Hs. unfold bisect_right. pose proof (count_le_range a x).
+  apply bisect_loop_spec; try assumption; try lia. unfold len. lia.
+Qed.
+
+(* ---------- C. get_input_pos as a walk along the table ---------- *)
+Fixpoint lookup (bi bo : Z) (io oo : list Z) (k : Z) : Z :=
+  match io, oo with
+  | i :: io', o :: oo' => if o <=? k then lookup i o io' oo' k else bi + (k - bo)
+  | _, _ => bi + (k - bo)
+  end.
+
+Lemma lookup_nth k : forall oo io bi bo, length io = length oo ->
+  nth (Z.to_nat (count_le oo k)) (bi :: io) 0 + (k - nth (Z.to_nat (count_le oo k)) (bo :: oo) 0)
+  = lookup bi bo io oo k.
+Proof.
+  induction oo as [|o oo IH]; intros [|i io] bi bo Hlen; try discriminate; cbn [count_le lookup]; [reflexivity|].
+  destruct (o <=? k); [|reflexivity].
+  pose proof (count_le_range oo k) as Hr.
+  replace (Z.to_nat (1 + count_le oo k)) with (S (Z.to_nat (count_le oo k))) by lia.
+  cbn [nth]. apply IH. cbn [length] in Hlen. lia.
+Qed.
+
+Lemma get_input_pos_lookup bi bo io oo k : sorted (bo :: oo) -> length io = length oo -> bo <= k ->
+  get_input_pos (bi :: io) (bo :: oo) k = lookup bi bo io oo k.
+Proof.
+  intros Hs Hlen Hk. unfold get_input_pos. rewrite bisect_right_sorted by exact Hs.
+  cbn [count_le]. destruct (bo <=? k) eqn:E; [|apply Z.leb_gt in E; lia].
+  pose proof (count_le_range oo k) as Hr.
+  replace (1 + count_le oo k - 1) with (count_le oo k) by lia.
+  unfold py_index. destruct (count_le oo k <? 0) eqn:E2; [apply Z.ltb_lt in E2; lia|].
+  apply lookup_nth; exact Hlen.
+Qed.
+
+Lemma lookup_stop bi bo io oo k : Forall (fun o => k < o) oo -> lookup bi bo io oo k = bi + (k - bo).
+Proof.
+  intros H. destruct io as [|i io], oo as [|o oo]; cbn [lookup]; try reflexivity.
+  inversion H as [|? ? Ho _]; subst. destruct (o <=? k) eqn:E; [apply Z.leb_le in E; lia | reflexivity].
+Qed.
+Lemma lookup_ge m k : forall io oo bi bo, Forall (fun i => m <= i) io -> Forall (fun o => bo <= o) oo -> sorted oo ->
+  m <= bi + (k - bo) -> m <= lookup bi bo io oo k.
+Proof.
+  induction io as [|i io IH]; intros oo bi bo Hi Ho Hs Hb; cbn [lookup]; [exact Hb|].
+  destruct oo as [|o oo]; [exact Hb|]. destruct (o <=? k) eqn:E; [|exact Hb].
+  apply Z.leb_le in E. inversion Hi; subst. cbn [sorted] in Hs. destruct Hs as [Hs1 Hs2].
+  apply IH; try assumption. lia.
+Qed.
+(* no table entry at e: the position of e is one more than the position of e - 1 *)
+Lemma lookup_succ e : forall io oo bi bo, ~ In e oo ->
+  lookup bi bo io oo e = lookup bi bo io oo (e - 1) + 1.
+Proof.
+  induction io as [|i io IH]; intros oo bi bo Hn; cbn [lookup]; [lia|].
+  destruct oo as [|o oo]; [lia|].
+  assert (o <> e) by (intros ->; apply Hn; left; reflexivity).
+  assert (~ In e oo) by (intros Hin; apply Hn; right; exact Hin).
+  destruct (o <=? e) eqn:E1, (o <=? e - 1) eqn:E2;
+    try apply Z.leb_le in E1; try apply Z.leb_le in E2; try apply Z.leb_gt in E1; try apply Z.leb_gt in E2;
+    try lia. apply IH; assumption.
+Qed.
+
+(* ---------- D. the Replacer loop on well-formed patch lists ---------- *)
+Definition shape := (Z * Z * Z)%type.                       (* start, end, length of the new text *)
+Definition shp {A} (c : Z * Z * list A) : shape := (fst (fst c), snd (fst c), len (snd c)).
+
+Fixpoint wfp (n ip : Z) (sh : list shape) : Prop :=
+  match sh with
+  | [] => 0 <= ip <= n
+  | (s, e, k) :: r => 0 <= ip <= s /\ s <= e <= n /\ 0 <= k /\ wfp n e r
+  end.
+
+Fixpoint splice {A} (l : list A) (ip : Z) (cs : list (Z * Z * list A)) : list A :=
+  match cs with
+  | [] => from l ip
+  | (s, e, new) :: r => sub l ip s ++ new ++ splice l e r
+  end.
+
+Fixpoint tab_in (ip op : Z) (sh : list shape) : list Z :=
+  match sh with
+  | [] => []
+  | (s, e, k) :: r =>
+      let t := tab_in e (op + (s - ip) + k) r in if k =? e - s then t else e :: t
+  end.
+Fixpoint tab_out (ip op : Z) (sh : list shape) : list Z :=
+  match sh with
+  | [] => []
+  | (s, e, k) :: r =>
+      let t := tab_out e (op + (s - ip) + k) r in if k =? e - s then t else (op + (s - ip) + k) :: t
+  end.
+
+Lemma shp_pcore p : shp (pcore p) = (p_start p, p_end p, len (p_new p)).
+Proof. reflexivity. Qed.
+
+Lemma wf_from_wfp t : forall ps ip, wf_from t ip ps -> wfp (len t) ip (map shp (map pcore ps)).
+Proof.
+  induction ps as [|p ps IH]; intros ip H; cbn [wf_from map wfp] in *; [exact H|].
+  rewrite shp_pcore. destruct H as (H1 & H2 & _ & H4).
+  repeat split; try lia; [apply len_nonneg | apply IH; exact H4].
+Qed.
+
+Lemma loop_ok t : forall ps ip op, wf_from t ip ps ->
+  replacer_loop t ip op ps =
+  Ok (tab_in ip op (map shp (map pcore ps)), tab_out ip op (map shp (map pcore ps)), splice t ip (map pcore ps)).
+Proof.
+  induction ps as [|p ps IH]; intros ip op H; cbn [wf_from replacer_loop map splice tab_in tab_out] in *.
+  - rewrite py_slice_from_from by exact H. reflexivity.
+  - destruct H as (H1 & H2 & H3 & H4).
+    unfold validate_patch. rewrite py_slice_sub, H3, text_eqb_refl by lia.
+    rewrite (IH _ _ H4). cbn [bind]. rewrite shp_pcore. unfold pcore at 5. rewrite py_slice_sub by lia.
+    destruct (len (p_new p) =? p_end p - p_start p); reflexivity.
+Qed.
+
+(* applying the patches directly = the loop's output *)
+Lemma apply_sorted_splice {A} (l : list A) : forall cs ip, wfp (len l) ip (map shp cs) ->
+  apply_sorted l cs = sub l 0 ip ++ splice l ip cs.
+Proof.
+  induction cs as [|[[s e] new] cs IH]; intros ip H; cbn [map wfp apply_sorted splice] in *.
+  - rewrite <- from_split by lia. reflexivity.
+  - unfold shp in H; cbn [fst snd] in H. destruct H as (H1 & H2 & H3 & H4).
+    rewrite (IH e H4). unfold apply_patch.
+    assert (Hl : len (sub l 0 e) = e) by (rewrite len_sub; lia).
+    rewrite sub_app_l by lia. rewrite from_app_r by lia. rewrite Hl, Z.sub_diag, from_0.
+    assert (Hs : sub (sub l 0 e) 0 s = sub l 0 s).
+    { rewrite (sub_split l 0 s e) by lia. rewrite sub_app_l; [|lia|rewrite len_sub; lia].
+      rewrite <- (sub_0_len (sub l 0 s)) at 2. rewrite len_sub by lia. f_equal; lia. }
+    rewrite Hs. rewrite (sub_split l 0 ip s) by lia. rewrite <- app_assoc. reflexivity.
+Qed.
+
+Definition map_core {A B} (f : A -> B) (c : Z * Z * list A) : Z * Z * list B := (fst c, map f (snd c)).
+Lemma splice_map {A B} (f : A -> B) (l : list A) : forall cs ip,
+  map f (splice l ip cs) = splice (map f l) ip (map (map_core f) cs).
+Proof.
+  induction cs as [|[[s e] new] cs IH]; intros ip; cbn [splice map].
+  - symmetry; apply from_map.
+  - unfold map_core at 1; cbn [fst snd]. rewrite !map_app, IH, sub_map. reflexivity.
+Qed.
+Lemma shp_map_core {A B} (f : A -> B) cs : map shp (map (map_core f) cs) = map shp cs.
+Proof.
+  induction cs as [|[[s e] new] cs IH]; cbn [map]; [reflexivity|]. rewrite IH. f_equal.
+  unfold shp, map_core; cbn [fst snd]. rewrite len_map. reflexivity.
+Qed.
+
+Lemma tab_len : forall sh ip op, length (tab_in ip op sh) = length (tab_out ip op sh).
+Proof.
+  induction sh as [|[[s e] k] sh IH]; intros ip op; cbn [tab_in tab_out]; [reflexivity|].
+  destruct (k =? e - s); cbn [length]; rewrite IH; reflexivity.
+Qed.
+Lemma tab_in_ge n : forall sh ip op, wfp n ip sh -> Forall (fun i => ip <= i) (tab_in ip op sh).
+Proof.
+  induction sh as [|[[s e] k] sh IH]; intros ip op H; cbn [tab_in wfp] in *; [constructor|].
+  destruct H as (H1 & H2 & H3 & H4). specialize (IH e (op + (s - ip) + k) H4).
+  assert (Forall (fun i => ip <= i) (tab_in e (op + (s - ip) + k) sh))
+    by (eapply Forall_impl; [|exact IH]; cbn; intros; lia).
+  destruct (k =? e - s); [assumption | constructor; [lia | assumption]].
+Qed.
+Lemma tab_out_ge n : forall sh ip op, wfp n ip sh -> Forall (fun o => op <= o) (tab_out ip op sh).
+Proof.
+  induction sh as [|[[s e] k] sh IH]; intros ip op H; cbn [tab_out wfp] in *; [constructor|].
+  destruct H as (H1 & H2 & H3 & H4). specialize (IH e (op + (s - ip) + k) H4).
+  assert (Forall (fun o => op <= o) (tab_out e (op + (s - ip) + k) sh))
+    by (eapply Forall_impl; [|exact IH]; cbn; intros; lia).
+  destruct (k =? e - s); [assumption | constructor; [lia | assumption]].
+Qed.
+Lemma tab_out_sorted n : forall sh ip op, wfp n ip sh -> sorted (tab_out ip op sh).
+Proof.
+  induction sh as [|[[s e] k] sh IH]; intros ip op H; cbn [tab_out wfp] in *; [exact I|].
+  destruct H as (H1 & H2 & H3 & H4).
+  destruct (k =? e - s); [apply IH; exact H4|]. cbn [sorted]. split; [|apply IH; exact H4].
+  eapply tab_out_ge; exact H4.
+Qed.
+
+(* ---------- E. which input character an output character is a copy of ---------- *)
+Fixpoint src_pos (ip op : Z) (sh : list shape) (k : Z) : option Z :=
+  match sh with
+  | [] => Some (ip + (k - op))
+  | (s, e, n) :: r =>
+      if k <? op + (s - ip) then Some (ip + (k - op))
+      else if k <? op + (s - ip) + n then None
+      else src_pos e (op + (s - ip) + n) r k
+  end.
+
+Lemma src_pos_ge n : forall sh ip op k q, wfp n ip sh -> op <= k -> src_pos ip op sh k = Some q -> ip <= q.
+Proof.
+  induction sh as [|[[s e] m] sh IH]; intros ip op k q H Hk Hq; cbn [src_pos wfp] in *.
+  - inversion Hq; lia.
+  - destruct H as (H1 & H2 & H3 & H4).
+    destruct (k <? op + (s - ip)) eqn:E1; [inversion Hq; lia|].
+    destruct (k <? op + (s - ip) + m) eqn:E2; [discriminate|]. apply Z.ltb_ge in E2.
+    specialize (IH _ _ _ _ H4 E2 Hq). lia.
+Qed.
+
+Lemma src_pos_mono n : forall sh ip op k1 k2 q1 q2, wfp n ip sh -> op <= k1 <= k2 ->
+  src_pos ip op sh k1 = Some q1 -> src_pos ip op sh k2 = Some q2 -> q1 <= q2.
+Proof.
+  induction sh as [|[[s e] m] sh IH]; intros ip op k1 k2 q1 q2 H Hk H1 H2; cbn [src_pos wfp] in *.
+  - inversion H1; inversion H2; lia.
+  - destruct H as (Ha & Hb & Hc & Hd).
+    destruct (k1 <? op + (s - ip)) eqn:E1.
+    + apply Z.ltb_lt in E1. inversion H1; subst q1.
+      destruct (k2 <? op + (s - ip)) eqn:E2; [inversion H2; lia|].
+      destruct (k2 <? op + (s - ip) + m) eqn:E3; [discriminate|]. apply Z.ltb_ge in E3.
+      pose proof (src_pos_ge _ _ _ _ _ _ Hd E3 H2). lia.
+    + apply Z.ltb_ge in E1.
+      destruct (k1 <? op + (s - ip) + m) eqn:E1'; [discriminate|]. apply Z.ltb_ge in E1'.
+      destruct (k2 <? op + (s - ip)) eqn:E2; [apply Z.ltb_lt in E2; lia|].
+      destruct (k2 <? op + (s - ip) + m) eqn:E3; [apply Z.ltb_lt in E3; lia|].
+      eapply IH; [exact Hd| |exact H1|exact H2]. lia.
+Qed.
+
+(* the character at output position k: a copy of input character q, or a character of a patch's new text *)
+Lemma splice_znth {A} (l : list A) (d : A) : forall cs ip op k, wfp (len l) ip (map shp cs) ->
+  op <= k < op + len (splice l ip cs) ->
+  match src_pos ip op (map shp cs) k with
+  | Some q => ip <= q < len l /\ znth (splice l ip cs) (k - op) d = znth l q d
+  | None => exists c, In c cs /\ In (znth (splice l ip cs) (k - op) d) (snd c)
+  end.
+Proof.
+  induction cs as [|[[s e] new] cs IH]; intros ip op k H Hk; cbn [map wfp splice src_pos] in *.
+  - rewrite len_from in Hk by lia. split; [lia|]. rewrite znth_from by lia. f_equal; lia.
+  - unfold shp at 1 in H; unfold shp at 1; cbn [fst snd] in *. destruct H as (H1 & H2 & H3 & H4).
+    rewrite !len_app in Hk. assert (Hl : len (sub l ip s) = s - ip) by (rewrite len_sub; lia). rewrite Hl in Hk.
+    destruct (k <? op + (s - ip)) eqn:E1.
+    + apply Z.ltb_lt in E1. split; [lia|]. rewrite znth_app_l by lia. rewrite znth_sub by lia. f_equal; lia.
+    + apply Z.ltb_ge in E1. rewrite znth_app_r by lia. rewrite Hl.
+      destruct (k <? op + (s - ip) + len new) eqn:E2.
+      * apply Z.ltb_lt in E2. exists (s, e, new). split; [left; reflexivity|]. cbn [snd].
+        rewrite znth_app_l by lia. unfold znth. apply nth_In. unfold len in *. lia.
+      * apply Z.ltb_ge in E2. rewrite znth_app_r by lia.
+        specialize (IH e (op + (s - ip) + len new) k H4).
+        replace (k - op - (s - ip) - len new) with (k - (op + (s - ip) + len new)) by lia.
+        destruct (src_pos e (op + (s - ip) + len new) (map shp cs) k) as [q|].
+        -- destruct IH as [IH1 IH2]; [lia|]. split; [lia|exact IH2].
+        -- destruct IH as (c & Hc1 & Hc2); [lia|]. exists c. split; [right; exact Hc1|exact Hc2].
+Qed.
+
+(* A: the table walk finds the source position of a copied character *)
+Lemma lookup_src n : forall sh ip op bi bo k q, wfp n ip sh -> op <= k -> bi - bo = ip - op -> bo <= op ->
+  src_pos ip op sh k = Some q -> lookup bi bo (tab_in ip op sh) (tab_out ip op sh) k = q.
+Proof.
+  induction sh as [|[[s e] m] sh IH]; intros ip op bi bo k q H Hk Hinv Hbo Hq; cbn [src_pos wfp tab_in tab_out] in *.
+  - cbn [lookup]. inversion Hq; lia.
+  - destruct H as (H1 & H2 & H3 & H4).
+    pose proof (tab_out_ge _ _ _ (op + (s - ip) + m) H4) as Hge.
+    destruct (k <? op + (s - ip)) eqn:E1.
+    + apply Z.ltb_lt in E1. inversion Hq; subst q.
+      rewrite lookup_stop; [lia|].
+      destruct (m =? e - s); [|constructor; [lia|]]; (eapply Forall_impl; [|exact Hge]; cbn; intros; lia).
+    + apply Z.ltb_ge in E1. destruct (k <? op + (s - ip) + m) eqn:E2; [discriminate|]. apply Z.ltb_ge in E2.
+      destruct (m =? e - s) eqn:E3.
+      * apply Z.eqb_eq in E3. apply (IH e); try assumption; lia.
+      * cbn [lookup]. destruct (op + (s - ip) + m <=? k) eqn:E4; [|apply Z.leb_gt in E4; lia].
+        apply (IH e); try assumption; lia.
+Qed.
+
+(* C: ... and the walk for the position after a copied character never stops before it *)
+Lemma lookup_src_next n : forall sh ip op bi bo k q, wfp n ip sh -> op <= k -> bi - bo = ip - op -> bo <= op ->
+  src_pos ip op sh k = Some q -> q + 1 <= lookup bi bo (tab_in ip op sh) (tab_out ip op sh) (k + 1).
+Proof.
+  induction sh as [|[[s e] m] sh IH]; intros ip op bi bo k q H Hk Hinv Hbo Hq; cbn [src_pos wfp tab_in tab_out] in *.
+  - cbn [lookup]. inversion Hq; lia.
+  - destruct H as (H1 & H2 & H3 & H4).
+    pose proof (tab_out_ge _ _ _ (op + (s - ip) + m) H4) as Hge.
+    pose proof (tab_in_ge _ _ _ (op + (s - ip) + m) H4) as Hgi.
+    pose proof (tab_out_sorted _ _ _ (op + (s - ip) + m) H4) as Hso.
+    destruct (k <? op + (s - ip)) eqn:E1.
+    + apply Z.ltb_lt in E1. inversion Hq; subst q.
+      apply lookup_ge; [| | |lia].
+      * destruct (m =? e - s); [|constructor; [lia|]]; (eapply Forall_impl; [|exact Hgi]; cbn; intros; lia).
+      * destruct (m =? e - s); [|constructor; [lia|]]; (eapply Forall_impl; [|exact Hge]; cbn; intros; lia).
+      * destruct (m =? e - s); [exact Hso|]. cbn [sorted]. split; assumption.
+    + apply Z.ltb_ge in E1. destruct (k <? op + (s - ip) + m) eqn:E2; [discriminate|]. apply Z.ltb_ge in E2.
+      destruct (m =? e - s) eqn:E3.
+      * apply Z.eqb_eq in E3. apply (IH e); try assumption; lia.
+      * cbn [lookup]. destruct (op + (s - ip) + m <=? k + 1) eqn:E4; [|apply Z.leb_gt in E4; lia].
+        apply (IH e); try assumption; lia.
+Qed.
+
+(* ---------- F. one Replacer level ---------- *)
+Definition dcell : cell := (0, None).
+
+Lemma fst_generated t : map fst (generated t) = t.
+Proof. unfold generated. rewrite map_map. cbn [fst]. apply map_id. Qed.
+Lemma generated_None t x : In x (generated t) -> snd x = None.
+Proof. unfold generated. rewrite in_map_iff. intros (c & <- & _). reflexivity. Qed.
+Lemma acore_pcore ps : map (map_core fst) (map acore ps) = map pcore ps.
+Proof.
+  induction ps as [|p ps IH]; cbn [map]; [reflexivity|]. rewrite IH. f_equal.
+  unfold map_core, acore, pcore; cbn [fst snd]. rewrite fst_generated. reflexivity.
+Qed.
+Lemma shp_acore ps : map shp (map acore ps) = map shp (map pcore ps).
+Proof. rewrite <- acore_pcore, shp_map_core. reflexivity. Qed.
+
+Definition shapes (ps : list patch) : list shape := map shp (map pcore ps).
+
+Lemma replacer_init_ok t patches : wf_from t 0 (sort_patches patches) ->
+  replacer_init t patches =
+  Ok (0 :: tab_in 0 0 (shapes (sort_patches patches)), 0 :: tab_out 0 0 (shapes (sort_patches patches)),
+      splice t 0 (map pcore (sort_patches patches))).
+Proof. intros H. unfold replacer_init. rewrite (loop_ok _ _ _ _ H). reflexivity. Qed.
+
+Lemma prender_replacer_splice (l : list cell) ps : wf_from (map fst l) 0 ps ->
+  apply_sorted l (map acore ps) = splice l 0 (map acore ps) /\
+  map fst (splice l 0 (map acore ps)) = splice (map fst l) 0 (map pcore ps).
+Proof.
+  intros H. apply wf_from_wfp in H. rewrite len_map in H. split.
+  - rewrite (apply_sorted_splice l _ 0) by (rewrite shp_acore; exact H). reflexivity.
+  - rewrite splice_map, acore_pcore. reflexivity.
+Qed.
+
+Lemma replacer_positions (l : list cell) ps s e o1 o2 :
+  wf_from (map fst l) 0 ps ->
+  let out := splice l 0 (map acore ps) in
+  let io := 0 :: tab_in 0 0 (shapes ps) in
+  let oo := 0 :: tab_out 0 0 (shapes ps) in
+  0 <= s < e -> e <= len out ->
+  snd (znth out s dcell) = Some o1 -> snd (znth out (e - 1) dcell) = Some o2 ->
+  exists a b, 0 <= a < b /\ b <= len l /\
+    znth l a dcell = znth out s dcell /\ znth l (b - 1) dcell = znth out (e - 1) dcell /\
+    get_input_pos io oo s = a /\ input_end true io oo s e = b /\
+    (~ In e (tab_out 0 0 (shapes ps)) -> input_end false io oo s e = b).
+Proof.
+  intros Hwf out io oo Hse He Ho1 Ho2.
+  apply wf_from_wfp in Hwf. rewrite len_map in Hwf. fold (shapes ps) in Hwf.
+  assert (Hwf' : wfp (len l) 0 (map shp (map acore ps))) by (rewrite shp_acore; exact Hwf).
+  pose proof (splice_znth l dcell (map acore ps) 0 0 s Hwf') as Ps.
+  pose proof (splice_znth l dcell (map acore ps) 0 0 (e - 1) Hwf') as Pe.
+  rewrite shp_acore in Ps, Pe. fold (shapes ps) in Ps, Pe. fold out in Ps, Pe.
+  rewrite Z.sub_0_r in Ps, Pe.
+  destruct (src_pos 0 0 (shapes ps) s) as [a|] eqn:Ea.
+  2:{ destruct Ps as (c & Hc1 & Hc2); [lia|]. apply in_map_iff in Hc1 as (p & <- & _).
+      apply generated_None in Hc2. congruence. }
+  destruct (src_pos 0 0 (shapes ps) (e - 1)) as [b1|] eqn:Eb.
+  2:{ destruct Pe as (c & Hc1 & Hc2); [lia|]. apply in_map_iff in Hc1 as (p & <- & _).
+      apply generated_None in Hc2. congruence. }
+  destruct Ps as [Ra Za]; [lia|]. destruct Pe as [Rb Zb]; [lia|].
+  assert (Hab : a <= b1) by (eapply (src_pos_mono _ _ 0 0 s (e - 1)); [exact Hwf| |exact Ea|exact Eb]; lia).
+  assert (Hsorted : sorted (0 :: tab_out 0 0 (shapes ps))).
+  { cbn [sorted]. split; [eapply tab_out_ge; exact Hwf | eapply tab_out_sorted; exact Hwf]. }
+  assert (Hlen : length (tab_in 0 0 (shapes ps)) = length (tab_out 0 0 (shapes ps))) by apply tab_len.
+  assert (Gs : get_input_pos io oo s = a).
+  { unfold io, oo. rewrite get_input_pos_lookup by (try assumption; lia).
+    eapply lookup_src; [exact Hwf| | | |exact Ea]; lia. }
+  assert (Ge1 : get_input_pos io oo (e - 1) = b1).
+  { unfold io, oo. rewrite get_input_pos_lookup by (try assumption; lia).
+    eapply lookup_src; [exact Hwf| | | |exact Eb]; lia. }
+  assert (Ge : b1 + 1 <= get_input_pos io oo e).
+  { unfold io, oo. rewrite get_input_pos_lookup by (try assumption; lia).
+    replace e with (e - 1 + 1) at 1 by lia.
+    eapply lookup_src_next; [exact Hwf| | | |exact Eb]; lia. }
+  exists a, (b1 + 1). replace (b1 + 1 - 1) with b1 by lia.
+  split; [lia|]. split; [lia|]. split; [symmetry; exact Za|]. split; [symmetry; exact Zb|].
+  split; [exact Gs|]. split.
+  - unfold input_end. destruct (s <? e) eqn:E; [|apply Z.ltb_ge in E; lia]. cbn [andb]. rewrite Ge1. lia.
+  - intros Hn. unfold input_end. cbn [andb]. unfold io, oo.
+    rewrite get_input_pos_lookup by (try assumption; lia).
+    rewrite lookup_succ by exact Hn.
+    rewrite <- get_input_pos_lookup by (try assumption; lia). fold io oo. rewrite Ge1. reflexivity.
+Qed.
+
+(* ---------- F2. replacing input characters [a,b) and transporting the patches ---------- *)
+Lemma sub_sub0 {A} (l : list A) c x y : 0 <= x -> y <= c -> sub (sub l 0 c) x y = sub l x y.
+Proof.
+  intros Hx Hy. unfold sub. cbn [Z.to_nat skipn]. rewrite Z.sub_0_r.
+  rewrite skipn_firstn_comm, firstn_firstn. f_equal. lia.
+Qed.
+Lemma from_sub {A} (l : list A) x y k : 0 <= x -> 0 <= k -> from (sub l x y) k = sub l (x + k) y.
+Proof.
+  intros Hx Hk. unfold from, sub. rewrite skipn_firstn_comm, skipn_skipn. f_equal; [lia|f_equal; lia].
+Qed.
+Lemma sub_sub_prefix {A} (l : list A) x y k : 0 <= x -> 0 <= k -> x + k <= y -> sub (sub l x y) 0 k = sub l x (x + k).
+Proof.
+  intros Hx Hk Hy. unfold sub. cbn [Z.to_nat skipn]. rewrite Z.sub_0_r, firstn_firstn. f_equal. lia.
+Qed.
+
+Section Edit.
+  Context {A : Type} (l : list A) (a b : Z) (new : list A).
+  Hypothesis Hab : 0 <= a <= b.
+  Hypothesis Hbl : b <= len l.
+  Let delta := len new - (b - a).
+  Let l' := (sub l 0 a ++ new) ++ from l b.
+
+  Lemma edit_len_prefix : len (sub l 0 a ++ new) = b + delta.
+  Proof. rewrite len_app, len_sub by lia. unfold delta. lia. Qed.
+  Lemma edit_len : len l' = len l + delta.
+  Proof. unfold l'. rewrite len_app, edit_len_prefix, len_from by lia. lia. Qed.
+  Lemma edit_sub_before x y : 0 <= x -> y <= a -> sub l' x y = sub l x y.
+  Proof.
+    intros Hx Hy. unfold l'. rewrite <- app_assoc. rewrite sub_app_l by (rewrite ?len_sub; lia).
+    apply sub_sub0; lia.
+  Qed.
+  Lemma edit_sub_after x y : b <= x -> sub l' (x + delta) (y + delta) = sub l x y.
+  Proof.
+    intros Hx. unfold l'. rewrite sub_app_r by (rewrite edit_len_prefix; lia). rewrite edit_len_prefix.
+    rewrite sub_from by lia. f_equal; lia.
+  Qed.
+  Lemma edit_from_after x : b <= x -> from l' (x + delta) = from l x.
+  Proof.
+    intros Hx. unfold l'. rewrite from_app_r by (rewrite edit_len_prefix; lia). rewrite edit_len_prefix.
+    rewrite from_from by lia. f_equal; lia.
+  Qed.
+  Lemma edit_sub_mid x : 0 <= x <= a -> sub l' x (b + delta) = sub l x a ++ new.
+  Proof.
+    intros Hx. unfold l'. rewrite sub_app_l by (rewrite ?edit_len_prefix; lia).
+    assert (Hd : b + delta = a + len new) by (unfold delta; lia). rewrite Hd.
+    rewrite (sub_split _ x a) by (pose proof (len_nonneg new); lia).
+    rewrite sub_app_l by (rewrite ?len_sub; lia). rewrite sub_sub0 by lia.
+    rewrite sub_app_r by (rewrite len_sub; lia). rewrite len_sub by lia.
+    replace (a - (a - 0)) with 0 by lia. replace (a + len new - (a - 0)) with (len new) by lia.
+    rewrite sub_0_len. reflexivity.
+  Qed.
+End Edit.
+
+Lemma sub0_app_ge {A} (X Y : list A) k : len X <= k -> sub (X ++ Y) 0 k = X ++ sub Y 0 (k - len X).
+Proof.
+  intros H. pose proof (len_nonneg X). rewrite (sub_split _ 0 (len X) k) by lia.
+  rewrite sub_app_l by lia. rewrite sub_0_len. rewrite sub_app_r by lia. rewrite Z.sub_diag. reflexivity.
+Qed.
+Lemma splice_split {A} (l : list A) cs ip m : 0 <= ip <= m ->
+  match cs with [] => True | c :: _ => m <= fst (fst c) end ->
+  splice l ip cs = sub l ip m ++ splice l m cs.
+Proof.
+  intros Hm Hc. destruct cs as [|[[s e] n] cs]; cbn [splice fst] in *.
+  - apply from_split; lia.
+  - rewrite (sub_split l ip m s) by lia. rewrite <- app_assoc. reflexivity.
+Qed.
+
+Definition beforeb (a : Z) (p : patch) : bool := p_end p <=? a.
+Definition afterb (b : Z) (p : patch) : bool := b <=? p_start p.
+
+Lemma wf_from_ip t : forall L ip, wf_from t ip L -> 0 <= ip <= len t.
+Proof. intros [|p L] ip H; cbn [wf_from] in H; lia. Qed.
+Lemma wf_from_weaken t L ip ip' : wf_from t ip L -> 0 <= ip' <= ip -> wf_from t ip' L.
+Proof. destruct L as [|p L]; cbn [wf_from]; intros H Hi; [lia|]. destruct H as (H1 & H2 & H3 & H4). repeat split; try assumption; lia. Qed.
+Lemma before_nil t a : forall L ip, wf_from t ip L -> a < ip -> filter (beforeb a) L = [].
+Proof.
+  induction L as [|p L IH]; intros ip H Ha; cbn [filter wf_from] in *; [reflexivity|].
+  destruct H as (H1 & H2 & H3 & H4). unfold beforeb at 1.
+  destruct (p_end p <=? a) eqn:E; [apply Z.leb_le in E; lia|]. apply (IH (p_end p)); [exact H4|lia].
+Qed.
+Lemma before_nil_cons t a p L ip : wf_from t ip (p :: L) -> a < p_end p -> filter (beforeb a) (p :: L) = [].
+Proof.
+  intros H Ha. cbn [wf_from filter] in *. destruct H as (H1 & H2 & H3 & H4). unfold beforeb at 1.
+  destruct (p_end p <=? a) eqn:E; [apply Z.leb_le in E; lia|]. apply (before_nil t a L (p_end p)); [exact H4|lia].
+Qed.
+Lemma after_all t b : forall L ip, wf_from t ip L -> b <= ip -> filter (afterb b) L = L.
+Proof.
+  induction L as [|p L IH]; intros ip H Hb; cbn [filter wf_from] in *; [reflexivity|].
+  destruct H as (H1 & H2 & H3 & H4). unfold afterb at 1.
+  destruct (b <=? p_start p) eqn:E; [|apply Z.leb_gt in E; lia]. f_equal. apply (IH (p_end p)); [exact H4|lia].
+Qed.
+Lemma transport_eq L a b d : transport L a b d = filter (beforeb a) L ++ map (shiftp d) (filter (afterb b) L).
+Proof. reflexivity. Qed.
+Lemma pcore_shiftp d p : pcore (shiftp d p) = (p_start p + d, p_end p + d, p_new p).
+Proof. reflexivity. Qed.
+Lemma shapes_cons p L : shapes (p :: L) = (p_start p, p_end p, len (p_new p)) :: shapes L.
+Proof. reflexivity. Qed.
+
+Section Transport.
+  Context (t : text) (a b : Z) (new : text).
+  Hypothesis Hab : 0 <= a <= b.
+  Hypothesis Hbl : b <= len t.
+  Let delta := len new - (b - a).
+  Let t' := (sub t 0 a ++ new) ++ from t b.
+
+  (* patches after the range, moved *)
+  Lemma splice_shift : forall L ip0, wf_from t ip0 L -> b <= ip0 ->
+    splice t' (ip0 + delta) (map pcore (map (shiftp delta) L)) = splice t ip0 (map pcore L).
+  Proof.
+    induction L as [|p L IH]; intros ip0 H Hb; cbn [map splice wf_from] in *.
+    - apply edit_from_after; assumption.
+    - destruct H as (H1 & H2 & H3 & H4). rewrite pcore_shiftp. unfold pcore at 2.
+      unfold t', delta. rewrite edit_sub_after by assumption. fold delta t'.
+      rewrite (IH (p_end p)) by (try assumption; lia). reflexivity.
+  Qed.
+
+  (* everything from the range end on *)
+  Lemma splice_after (e : Z) : forall L ip op, wf_from t ip L -> op <= e - 1 ->
+    src_pos ip op (shapes L) (e - 1) = Some (b - 1) ->
+    splice t' (b + delta) (map pcore (map (shiftp delta) (filter (afterb b) L)))
+    = from (splice t ip (map pcore L)) (e - op).
+  Proof.
+    induction L as [|p L IH]; intros ip op H He Hsrc.
+    - cbn [shapes map src_pos filter splice] in *. pose proof (wf_from_ip _ _ _ H).
+      inversion Hsrc as [Hb]. unfold t', delta. rewrite edit_from_after by (try assumption; lia).
+      rewrite from_from by lia. f_equal. lia.
+    - pose proof (wf_from_wfp _ _ _ H) as Hw. cbn [wf_from] in H. destruct H as (H1 & H2 & H3 & H4).
+      rewrite shapes_cons in Hsrc. cbn [src_pos] in Hsrc. cbn [map splice filter]. unfold pcore at 2.
+      pose proof (len_nonneg (p_new p)) as Hn.
+      assert (Hl1 : len (sub t ip (p_start p)) = p_start p - ip) by (rewrite len_sub; lia).
+      destruct (e - 1 <? op + (p_start p - ip)) eqn:E1.
+      + apply Z.ltb_lt in E1. inversion Hsrc as [Hb].
+        unfold afterb at 1. destruct (b <=? p_start p) eqn:E; [|apply Z.leb_gt in E; lia].
+        rewrite (after_all t b L (p_end p)) by (try assumption; lia).
+        assert (Hwb : wf_from t b (p :: L)) by (cbn [wf_from]; repeat split; try assumption; lia).
+        rewrite (splice_shift (p :: L) b Hwb) by lia. cbn [map splice]. unfold pcore at 1.
+        rewrite from_app_l by lia. rewrite from_sub by lia. do 2 f_equal. lia.
+      + apply Z.ltb_ge in E1.
+        destruct (e - 1 <? op + (p_start p - ip) + len (p_new p)) eqn:E2; [discriminate|]. apply Z.ltb_ge in E2.
+        cbn [map wfp] in Hw. rewrite shp_pcore in Hw. destruct Hw as (_ & _ & _ & Hw).
+        pose proof (src_pos_ge _ _ _ _ _ _ Hw E2 Hsrc) as Hge.
+        unfold afterb at 1. destruct (b <=? p_start p) eqn:E; [apply Z.leb_le in E; lia|].
+        rewrite (IH (p_end p) (op + (p_start p - ip) + len (p_new p))) by (try assumption; lia).
+        rewrite from_app_r by lia. rewrite Hl1. rewrite from_app_r by lia. f_equal. lia.
+  Qed.
+End Transport.
+
+Section Transport2.
+  Context (t : text) (a b : Z) (new : text).
+  Hypothesis Hab : 0 <= a <= b.
+  Hypothesis Hbl : b <= len t.
+  Let delta := len new - (b - a).
+  Let t' := (sub t 0 a ++ new) ++ from t b.
+
+  Lemma transport_cons_before p L : p_start p <= p_end p <= a -> a < b ->
+    transport (p :: L) a b delta = p :: transport L a b delta.
+  Proof.
+    intros H1 H2. unfold transport. cbn [filter].
+    destruct (p_end p <=? a) eqn:E; [|apply Z.leb_gt in E; lia].
+    destruct (b <=? p_start p) eqn:E'; [apply Z.leb_le in E'; lia | reflexivity].
+  Qed.
+
+  (* the output of the Replacer over the edited input with the transported patches *)
+  Lemma splice_transport (s e : Z) : forall L ip op, wf_from t ip L -> ip <= a -> op <= s <= e - 1 ->
+    src_pos ip op (shapes L) s = Some a -> src_pos ip op (shapes L) (e - 1) = Some (b - 1) ->
+    splice t' ip (map pcore (transport L a b delta))
+    = sub (splice t ip (map pcore L)) 0 (s - op) ++ new ++ from (splice t ip (map pcore L)) (e - op).
+  Proof.
+    induction L as [|p L IH]; intros ip op H Hip Hse Hs He.
+    - cbn [shapes map src_pos transport filter app splice] in *. pose proof (wf_from_ip _ _ _ H).
+      injection Hs as Ha. injection He as Hb. pose proof (len_nonneg new) as Hn.
+      rewrite (from_split t' ip (b + delta)) by (unfold delta; lia).
+      unfold t', delta. rewrite edit_sub_mid, edit_from_after by (try assumption; lia).
+      rewrite sub_from, from_from by lia. rewrite <- app_assoc. do 2 f_equal; f_equal; lia.
+    - pose proof (wf_from_wfp _ _ _ H) as Hw. pose proof H as Hfull.
+      cbn [wf_from] in H. destruct H as (H1 & H2 & H3 & H4).
+      cbn [map wfp] in Hw. rewrite shp_pcore in Hw. destruct Hw as (_ & _ & _ & Hw).
+      rewrite shapes_cons in Hs, He. cbn [src_pos] in Hs, He.
+      pose proof (len_nonneg (p_new p)) as Hn. pose proof (len_nonneg new) as Hn'.
+      assert (Hl1 : len (sub t ip (p_start p)) = p_start p - ip) by (rewrite len_sub; lia).
+      destruct (s <? op + (p_start p - ip)) eqn:E1.
+      + (* the range starts in the text before the first patch: no patch is before it *)
+        apply Z.ltb_lt in E1. injection Hs as Ha.
+        rewrite transport_eq. rewrite (before_nil_cons t a p L ip Hfull) by lia. cbn [app].
+        rewrite (splice_split t' _ ip (b + delta)).
+        2:{ unfold delta; lia. }
+        2:{ destruct (filter (afterb b) (p :: L)) as [|q F] eqn:EF; cbn [map]; [exact I|].
+            assert (Hq : In q (filter (afterb b) (p :: L))) by (rewrite EF; left; reflexivity).
+            apply filter_In in Hq as [_ Hq]. unfold afterb in Hq. apply Z.leb_le in Hq.
+            rewrite pcore_shiftp. cbn [fst]. lia. }
+        unfold t', delta. rewrite edit_sub_mid by (try assumption; lia). fold delta t'.
+        rewrite (splice_after t a b new Hab Hbl e (p :: L) ip op Hfull) by (try assumption; try lia; rewrite shapes_cons; cbn [src_pos]; exact He).
+        cbn [map splice]. unfold pcore at 1 3.
+        rewrite sub_app_l by lia. rewrite sub_sub_prefix by lia. rewrite <- app_assoc.
+        do 2 f_equal. lia.
+      + apply Z.ltb_ge in E1.
+        destruct (s <? op + (p_start p - ip) + len (p_new p)) eqn:E2; [discriminate|]. apply Z.ltb_ge in E2.
+        destruct (e - 1 <? op + (p_start p - ip)) eqn:E3; [apply Z.ltb_lt in E3; lia|].
+        destruct (e - 1 <? op + (p_start p - ip) + len (p_new p)) eqn:E4; [apply Z.ltb_lt in E4; lia|].
+        pose proof (src_pos_ge _ _ _ _ _ _ Hw E2 Hs) as Hge.
+        assert (Hlt : a <= b - 1) by (eapply (src_pos_mono _ _ _ _ s (e - 1)); [exact Hw| |exact Hs|exact He]; lia).
+        rewrite transport_cons_before by lia. cbn [map splice]. unfold pcore at 1 3 5.
+        unfold t', delta. rewrite edit_sub_before by (try assumption; lia). fold delta t'.
+        rewrite (IH (p_end p) (op + (p_start p - ip) + len (p_new p))) by (try assumption; lia).
+        rewrite sub0_app_ge by lia. rewrite Hl1. rewrite sub0_app_ge by lia.
+        rewrite from_app_r by lia. rewrite Hl1. rewrite from_app_r by lia.
+        rewrite <- !app_assoc. do 3 f_equal; [f_equal; lia|]. do 2 f_equal. lia.
+  Qed.
+
+  (* the transported patch list is well-formed for the edited input *)
+  Lemma wf_shift : forall L ip0, wf_from t ip0 L -> b <= ip0 -> wf_from t' (ip0 + delta) (map (shiftp delta) L).
+  Proof.
+    pose proof (len_nonneg new) as Hn'.
+    induction L as [|p L IH]; intros ip0 H Hb; cbn [map wf_from] in *.
+    - unfold t', delta. rewrite edit_len by assumption. fold delta. unfold delta. lia.
+    - destruct H as (H1 & H2 & H3 & H4). unfold shiftp at 1 2 3 4 5.
+      unfold p_start, p_end, p_old; cbn [fst snd]. fold (p_start p) (p_end p) (p_old p).
+      unfold t', delta. rewrite edit_len, edit_sub_after by (try assumption; lia). fold delta t'.
+      repeat split; try (unfold delta; lia); try assumption. apply IH; [exact H4|lia].
+  Qed.
+  Lemma wf_after : forall L ip, wf_from t ip L ->
+    wf_from t' (b + delta) (map (shiftp delta) (filter (afterb b) L)).
+  Proof.
+    pose proof (len_nonneg new) as Hn'.
+    induction L as [|p L IH]; intros ip H; cbn [filter map wf_from] in *.
+    - unfold t', delta. rewrite edit_len by assumption. unfold delta. lia.
+    - pose proof H as Hfull. destruct H as (H1 & H2 & H3 & H4). unfold afterb at 1.
+      destruct (b <=? p_start p) eqn:E; [apply Z.leb_le in E | apply (IH (p_end p)); exact H4].
+      rewrite (after_all t b L (p_end p)) by (try assumption; lia).
+      assert (Hwb : wf_from t b (p :: L)) by (cbn [wf_from]; repeat split; try assumption; lia).
+      exact (wf_shift (p :: L) b Hwb (Z.le_refl b)).
+  Qed.
+  Lemma wf_transport : forall L ip, wf_from t ip L -> ip <= a -> a < b -> wf_from t' ip (transport L a b delta).
+  Proof.
+    pose proof (len_nonneg new) as Hn'.
+    induction L as [|p L IH]; intros ip H Hip Hlt.
+    - cbn [transport filter map app wf_from] in *. unfold t', delta. rewrite edit_len by assumption. unfold delta. lia.
+    - pose proof H as Hfull. cbn [wf_from] in H. destruct H as (H1 & H2 & H3 & H4).
+      destruct (Z_le_gt_dec (p_end p) a) as [Hle|Hgt].
+      + rewrite transport_cons_before by lia. cbn [wf_from].
+        unfold t', delta. rewrite edit_len, edit_sub_before by (try assumption; lia). fold delta t'.
+        repeat split; try (unfold delta; lia); try assumption. apply IH; try assumption.
+      + rewrite transport_eq. rewrite (before_nil_cons t a p L ip Hfull) by lia. cbn [app].
+        eapply wf_from_weaken; [apply (wf_after (p :: L) ip Hfull)|]. unfold delta. lia.
+  Qed.
+End Transport2.
+
+(* @@F2END *)
+(* ---------- G. one Combiner level ---------- *)
+Lemma part_offsets_ge : forall ts o, Forall (fun x => o <= x) (part_offsets o ts).
+Proof.
+  induction ts as [|t ts IH]; intros o; cbn [part_offsets]; constructor; [lia|].
+  eapply Forall_impl; [|apply (IH (o + len t))]. cbn. intros. pose proof (len_nonneg t). lia.
+Qed.
+Lemma part_offsets_sorted : forall ts o, sorted (part_offsets o ts).
+Proof.
+  induction ts as [|t ts IH]; intros o; cbn [part_offsets sorted]; [exact I|]. split; [|apply IH].
+  eapply Forall_impl; [|apply (part_offsets_ge ts (o + len t))]. cbn. intros. pose proof (len_nonneg t). lia.
+Qed.
+Lemma count_le_zero a x : Forall (fun y => x < y) a -> count_le a x = 0.
+Proof.
+  intros H. destruct a as [|y a]; cbn [count_le]; [reflexivity|]. inversion H; subst.
+  destruct (y <=? x) eqn:E; [apply Z.leb_le in E; lia | reflexivity].
+Qed.
+Lemma off_of_nonneg : forall ts k, 0 <= off_of ts k.
+Proof.
+  induction ts as [|t ts IH]; intros [|k]; cbn [off_of]; try lia. pose proof (len_nonneg t). specialize (IH k). lia.
+Qed.
+
+Lemma in_part_count : forall ts o k s, in_part ts k (s - o) ->
+  count_le (part_offsets o ts) s = Z.of_nat k + 1 /\
+  nth k (part_offsets o ts) 0 = o + off_of ts k /\ o + off_of ts k <= s.
+Proof.
+  induction ts as [|t ts IH]; intros o k s H; cbn [in_part] in H; [destruct k; contradiction|].
+  cbn [part_offsets count_le]. destruct k as [|k].
+  - destruct (o <=? s) eqn:E; [|apply Z.leb_gt in E; lia].
+    rewrite count_le_zero; [cbn [nth off_of]; lia|].
+    eapply Forall_impl; [|apply (part_offsets_ge ts (o + len t))]. cbn. intros. lia.
+  - replace (s - o - len t) with (s - (o + len t)) in H by lia.
+    destruct (IH (o + len t) k s H) as (H1 & H2 & H3).
+    pose proof (len_nonneg t). pose proof (off_of_nonneg ts k).
+    destruct (o <=? s) eqn:E; [|apply Z.leb_gt in E; lia].
+    rewrite H1. cbn [nth off_of]. rewrite H2. lia.
+Qed.
+
+(* what Combiner.map_back_patch does with a valid range whose first and last characters lie in parts k1, k2 *)
+Lemma combiner_select fixed ps ts s e old new k1 k2 :
+  render_parts ps = Ok ts -> old = sub (concat ts) s e -> 0 <= s <= e -> e <= len (concat ts) ->
+  in_part ts k1 s -> in_part ts k2 (e - 1) ->
+  map_back fixed (BCombiner ps) (s, e, old, new) =
+  if Nat.eqb k1 k2 then map_back_parts fixed ps k1 (s - off_of ts k1, e - off_of ts k1, old, new) else ValueError.
+Proof.
+  intros Hr Hold Hse He H1 H2. cbn [map_back]. rewrite Hr. cbn [bind].
+  unfold validate_patch, p_start, p_end, p_old, p_new; cbn [fst snd].
+  rewrite py_slice_sub by lia. rewrite Hold, text_eqb_refl.
+  rewrite !bisect_right_sorted by apply part_offsets_sorted.
+  replace s with (s - 0) in H1 by lia. replace (e - 1) with (e - 1 - 0) in H2 by lia.
+  destruct (in_part_count _ _ _ _ H1) as (C1 & N1 & _). destruct (in_part_count _ _ _ _ H2) as (C2 & N2 & _).
+  rewrite C1, C2.
+  destruct (Z.of_nat k1 + 1 <=? 0) eqn:E1; [apply Z.leb_le in E1; lia|].
+  destruct (Z.of_nat k2 + 1 <=? 0) eqn:E2; [apply Z.leb_le in E2; lia|]. cbn [orb].
+  destruct (Nat.eqb k1 k2) eqn:E3.
+  - apply Nat.eqb_eq in E3. subst k2. rewrite Z.eqb_refl. cbn [negb].
+    replace (Z.of_nat k1 + 1 - 1) with (Z.of_nat k1) by lia. rewrite Nat2Z.id.
+    unfold py_index. destruct (Z.of_nat k1 <? 0) eqn:E4; [apply Z.ltb_lt in E4; lia|].
+    rewrite Nat2Z.id, N1. reflexivity.
+  - apply Nat.eqb_neq in E3. destruct (Z.of_nat k1 + 1 =? Z.of_nat k2 + 1) eqn:E4; [apply Z.eqb_eq in E4; lia|].
+    reflexivity.
+Qed.
+
+Lemma combiner_no_entry ps ts s e k : render_parts ps = Ok ts -> in_part ts k s ->
+  no_entry_at_end (BCombiner ps) s e = no_entry_parts ps k (s - off_of ts k) (e - off_of ts k).
+Proof.
+  intros Hr H1. cbn [no_entry_at_end]. rewrite Hr. cbv zeta.
+  rewrite bisect_right_sorted by apply part_offsets_sorted.
+  replace s with (s - 0) in H1 by lia. destruct (in_part_count _ _ _ _ H1) as (C1 & N1 & _).
+  rewrite C1. replace (Z.of_nat k + 1 - 1) with (Z.of_nat k) by lia. rewrite Nat2Z.id.
+  unfold py_index. destruct (Z.of_nat k <? 0) eqn:E4; [apply Z.ltb_lt in E4; lia|].
+  rewrite Nat2Z.id, N1. reflexivity.
+Qed.
+
+(* ---------- H. cells ---------- *)
+Lemma znth_map_d {A} (f : A -> A) l k d : f d = d -> znth (map f l) k d = f (znth l k d).
+Proof. intros H. unfold znth. rewrite <- H at 1. apply map_nth. Qed.
+
+Lemma fst_annot : forall t i, map fst (annot t i) = t.
+Proof. induction t as [|c t IH]; intros i; cbn [annot map fst]; [reflexivity | rewrite IH; reflexivity]. Qed.
+Lemma znth_annot : forall t i k, 0 <= k < len t -> znth (annot t i) k dcell = (znth t k 0, Some ([], i + k)).
+Proof.
+  induction t as [|c t IH]; intros i k Hk; [unfold len in Hk; cbn in Hk; lia|].
+  rewrite len_cons in Hk. cbn [annot]. destruct (Z.eq_dec k 0) as [->|Hne].
+  - unfold znth; cbn. rewrite Z.add_0_r. reflexivity.
+  - unfold znth in *. replace (Z.to_nat k) with (S (Z.to_nat (k - 1))) by lia. cbn [nth].
+    rewrite IH by lia. do 3 f_equal. lia.
+Qed.
+Lemma fst_push k l : map fst (map (push k) l) = map fst l.
+Proof. rewrite map_map. reflexivity. Qed.
+Lemma fst_bump l : map fst (map bump l) = map fst l.
+Proof. rewrite map_map. reflexivity. Qed.
+
+Definition bump_path (p : list nat) : list nat := match p with [] => [] | k :: r => S k :: r end.
+Lemma bump_path_inj p q : bump_path p = bump_path q -> p = q.
+Proof. destruct p, q; cbn; intros H; inversion H; reflexivity. Qed.
+Lemma bump_inv c p i : snd (bump c) = Some (p, i) -> exists p', snd c = Some (p', i) /\ p = bump_path p'.
+Proof.
+  destruct c as [x [[[|k r] i']|]]; cbn; intros H; inversion H; subst; eexists; split; reflexivity.
+Qed.
+Lemma push_inv k c p i : snd (push k c) = Some (p, i) -> exists p', snd c = Some (p', i) /\ p = k :: p'.
+Proof. destruct c as [x [[r i']|]]; cbn; intros H; inversion H; subst; eexists; split; reflexivity. Qed.
+
+Lemma znth_generated t k : snd (znth (generated t) k dcell) = None.
+Proof.
+  unfold znth. destruct (nth_in_or_default (Z.to_nat k) (generated t) dcell) as [H|H].
+  - apply generated_None in H. exact H.
+  - rewrite H. reflexivity.
+Qed.
+
+Scheme builder_mind := Induction for builder Sort Prop
+  with parts_mind := Induction for parts Sort Prop.
+Combined Scheme builder_parts_ind from builder_mind, parts_mind.
+
+Definition ends_ok (fixed : bool) (b : builder) (s e : Z) : Prop := fixed = true \/ no_entry_at_end b s e.
+Definition ends_ok_parts (fixed : bool) (ps : parts) (k : nat) (s e : Z) : Prop :=
+  fixed = true \/ no_entry_parts ps k s e.
+
+Definition exactP (fixed : bool) (b : builder) : Prop :=
+  wf_builder b ->
+  render b = Ok (map fst (prender b)) /\
+  forall s e new path i j, 0 <= s < e -> e <= len (prender b) ->
+    snd (znth (prender b) s dcell) = Some (path, i) ->
+    snd (znth (prender b) (e - 1) dcell) = Some (path, j - 1) ->
+    ends_ok fixed b s e ->
+    exists t v, leaf_at b path = Some (t, v) /\
+      map_back fixed b (s, e, sub (map fst (prender b)) s e, new) = Ok (Some (t, v, (i, j, sub t i j, new))).
+
+Definition exactQ (fixed : bool) (ps : parts) : Prop :=
+  wf_parts ps ->
+  exists ts, render_parts ps = Ok ts /\ concat ts = map fst (prender_parts ps) /\
+  forall s e new path0 i j, 0 <= s < e -> e <= len (prender_parts ps) ->
+    snd (znth (prender_parts ps) s dcell) = Some (path0, i) ->
+    snd (znth (prender_parts ps) (e - 1) dcell) = Some (path0, j - 1) ->
+    exists k path, path0 = k :: path /\ in_part ts k s /\ in_part ts k (e - 1) /\
+      (ends_ok_parts fixed ps k (s - off_of ts k) (e - off_of ts k) ->
+       exists t v, leaf_parts ps k path = Some (t, v) /\
+         map_back_parts fixed ps k (s - off_of ts k, e - off_of ts k, sub (concat ts) s e, new)
+         = Ok (Some (t, v, (i, j, sub t i j, new)))).
+
+Lemma exact_text fixed t v : exactP fixed (BText t v).
+Proof.
+  intros _. cbn [render prender]. rewrite fst_annot. split; [reflexivity|].
+  intros s e new path i j Hse He Hs He1 _.
+  assert (Hl : len (annot t 0) = len t) by (rewrite <- (fst_annot t 0) at 2; rewrite len_map; reflexivity).
+  rewrite Hl in He. rewrite znth_annot in Hs, He1 by lia. cbn [snd] in Hs, He1.
+  inversion Hs; subst path i. inversion He1 as [Hj]. assert (j = e) by lia. subst j.
+  exists t, v. split; [reflexivity|]. cbn [map_back].
+  unfold p_start, p_end, p_old; cbn [fst snd]. rewrite py_slice_sub by lia. rewrite text_eqb_refl. reflexivity.
+Qed.
+
+Lemma exact_replacer fixed inner ps : exactP fixed inner -> exactP fixed (BReplacer inner ps).
+Proof.
+  intros IH [Hwi Hwf]. destruct (IH Hwi) as [Hri IHm]. rewrite Hri in Hwf.
+  set (l := prender inner) in *. set (sps := sort_patches ps) in *.
+  destruct (prender_replacer_splice l sps Hwf) as [Hpr Hfst].
+  assert (Hinit := replacer_init_ok _ _ Hwf). fold sps in Hinit.
+  assert (Hrender : render (BReplacer inner ps) = Ok (map fst (prender (BReplacer inner ps)))).
+  { cbn [render prender]. rewrite Hri. cbn [bind]. rewrite Hinit. cbn [bind snd]. fold l sps.
+    rewrite Hpr, Hfst. reflexivity. }
+  split; [exact Hrender|].
+  intros s e new path i j Hse He Hs He1 Hok.
+  cbn [prender] in *. fold l sps in Hs, He1, He |- *. rewrite Hpr in Hs, He1, He |- *.
+  destruct (replacer_positions l sps s e _ _ Hwf Hse He Hs He1)
+    as (a & b & Hab & Hb & Za & Zb & Gs & Gt & Gf).
+  cbn [map_back]. rewrite Hri. cbn [bind]. rewrite Hinit. cbn [bind].
+  unfold validate_patch, p_start, p_end, p_old, p_new; cbn [fst snd].
+  rewrite <- Hfst.
+  rewrite py_slice_sub by (unfold cell in *; rewrite len_map; lia). rewrite text_eqb_refl.
+  fold (shapes sps).
+  assert (Gend : input_end fixed (0 :: tab_in 0 0 (shapes sps)) (0 :: tab_out 0 0 (shapes sps)) s e = b
+                 /\ ends_ok fixed inner a b).
+  { destruct fixed.
+    - split; [exact Gt | left; reflexivity].
+    - destruct Hok as [Hd|Hn]; [discriminate|].
+      cbn [no_entry_at_end] in Hn. rewrite Hri in Hn. cbn [bind] in Hn. rewrite Hinit in Hn. cbn [tl] in Hn.
+      fold (shapes sps) in Hn. destruct Hn as [Hn1 Hn2]. specialize (Gf Hn1). split; [exact Gf|].
+      right. rewrite Gs in Hn2. unfold input_end in Gf. cbn [andb] in Gf. rewrite Gf in Hn2. exact Hn2. }
+  destruct Gend as [Gend Hok']. rewrite Gs, Gend.
+  unfold make_patch. rewrite py_slice_sub by (unfold cell in *; rewrite len_map; lia).
+  apply IHm; try assumption; try lia.
+  - rewrite Za. exact Hs.
+  - rewrite Zb. exact He1.
+Qed.
+
+Lemma exact_combiner fixed ps : exactQ fixed ps -> exactP fixed (BCombiner ps).
+Proof.
+  intros IH Hwf. destruct (IH Hwf) as (ts & Hr & Hc & IHm).
+  split; [cbn [render prender]; rewrite Hr; cbn [bind]; rewrite Hc; reflexivity|].
+  intros s e new path0 i j Hse He Hs He1 Hok. cbn [prender] in *.
+  destruct (IHm s e new path0 i j Hse He Hs He1) as (k & path & -> & P1 & P2 & Hm).
+  assert (Hlen : len (concat ts) = len (prender_parts ps)) by (rewrite Hc; apply len_map).
+  rewrite <- Hc.
+  rewrite (combiner_select fixed ps ts s e _ new k k Hr eq_refl) by (try assumption; lia).
+  rewrite Nat.eqb_refl. cbn [leaf_at]. apply Hm.
+  destruct Hok as [Hf|Hn]; [left; exact Hf|right]. rewrite (combiner_no_entry ps ts s e k Hr P1) in Hn. exact Hn.
+Qed.
+
+Lemma exact_pnil fixed : exactQ fixed PNil.
+Proof.
+  intros _. exists []. split; [reflexivity|]. split; [reflexivity|].
+  intros s e new path0 i j Hse He. cbn [prender_parts] in He. unfold len in He; cbn in He. lia.
+Qed.
+
+(* shifting a range of (first part ++ rest) into the rest *)
+Lemma shift_rest fixed (first : list cell) t0 rest ts' s e new path0 i j :
+  len first = len t0 ->
+  (forall s e new path0 i j, 0 <= s < e -> e <= len (prender_parts rest) ->
+    snd (znth (prender_parts rest) s dcell) = Some (path0, i) ->
+    snd (znth (prender_parts rest) (e - 1) dcell) = Some (path0, j - 1) ->
+    exists k path, path0 = k :: path /\ in_part ts' k s /\ in_part ts' k (e - 1) /\
+      (ends_ok_parts fixed rest k (s - off_of ts' k) (e - off_of ts' k) ->
+       exists t v, leaf_parts rest k path = Some (t, v) /\
+         map_back_parts fixed rest k (s - off_of ts' k, e - off_of ts' k, sub (concat ts') s e, new)
+         = Ok (Some (t, v, (i, j, sub t i j, new))))) ->
+  len t0 <= s < e -> e <= len (first ++ map bump (prender_parts rest)) ->
+  snd (znth (first ++ map bump (prender_parts rest)) s dcell) = Some (path0, i) ->
+  snd (znth (first ++ map bump (prender_parts rest)) (e - 1) dcell) = Some (path0, j - 1) ->
+  exists k path, path0 = S k :: path /\ in_part ts' k (s - len t0) /\ in_part ts' k (e - 1 - len t0) /\
+    (ends_ok_parts fixed rest k (s - (len t0 + off_of ts' k)) (e - (len t0 + off_of ts' k)) ->
+     exists t v, leaf_parts rest k path = Some (t, v) /\
+       map_back_parts fixed rest k (s - (len t0 + off_of ts' k), e - (len t0 + off_of ts' k),
+                                    sub (t0 ++ concat ts') s e, new)
+       = Ok (Some (t, v, (i, j, sub t i j, new)))).
+Proof.
+  intros Hl IHm Hse He Hs He1.
+  rewrite len_app, len_map in He.
+  rewrite znth_app_r in Hs, He1 by lia. rewrite znth_map_d in Hs, He1 by reflexivity. rewrite Hl in Hs, He1.
+  apply bump_inv in Hs as (p1 & Hs & Hp1). apply bump_inv in He1 as (p2 & He1 & Hp2).
+  assert (p2 = p1) by (apply bump_path_inj; congruence). subst p2.
+  replace (e - 1 - len t0) with (e - len t0 - 1) in He1 by lia.
+  destruct (IHm (s - len t0) (e - len t0) new p1 i j) as (k & path & -> & P1 & P2 & Hm); try assumption; try lia.
+  exists k, path. split; [exact Hp1|]. split; [exact P1|].
+  split; [replace (e - 1 - len t0) with (e - len t0 - 1) by lia; exact P2|].
+  intros Hok. rewrite sub_app_r by lia.
+  replace (s - (len t0 + off_of ts' k)) with (s - len t0 - off_of ts' k) in * by lia.
+  replace (e - (len t0 + off_of ts' k)) with (e - len t0 - off_of ts' k) in * by lia.
+  apply Hm. exact Hok.
+Qed.
+
+Lemma exact_plit fixed t rest : exactQ fixed rest -> exactQ fixed (PLit t rest).
+Proof.
+  intros IH Hwf. cbn [wf_parts] in Hwf. destruct (IH Hwf) as (ts' & Hr & Hc & IHm).
+  exists (t :: ts'). split; [cbn [render_parts]; rewrite Hr; reflexivity|].
+  split; [cbn [concat prender_parts]; rewrite map_app, fst_generated, fst_bump, Hc; reflexivity|].
+  intros s e new path0 i j Hse He Hs He1. cbn [prender_parts] in *.
+  assert (Hl : len (generated t) = len t) by apply len_map.
+  destruct (Z_lt_le_dec s (len t)) as [Hlt|Hge].
+  { rewrite znth_app_l in Hs by lia. rewrite znth_generated in Hs. discriminate. }
+  destruct (shift_rest fixed (generated t) t rest ts' s e new path0 i j Hl IHm) as (k & path & -> & P1 & P2 & Hm);
+    try assumption; try lia.
+  exists (S k), path. split; [reflexivity|]. cbn [in_part off_of concat]. split; [exact P1|]. split; [exact P2|].
+  intros Hok. cbn [leaf_parts map_back_parts]. apply Hm.
+  destruct Hok as [Hf|Hn]; [left; exact Hf|right; exact Hn].
+Qed.
+
+Lemma exact_psub fixed b rest : exactP fixed b -> exactQ fixed rest -> exactQ fixed (PSub b rest).
+Proof.
+  intros IHb IH [Hwb Hwf]. destruct (IH Hwf) as (ts' & Hr & Hc & IHm). destruct (IHb Hwb) as [Hrb IHbm].
+  set (t0 := map fst (prender b)) in *.
+  exists (t0 :: ts'). split; [cbn [render_parts]; rewrite Hrb; cbn [bind]; rewrite Hr; reflexivity|].
+  split; [cbn [concat prender_parts]; rewrite map_app, fst_push, fst_bump, Hc; reflexivity|].
+  intros s e new path0 i j Hse He Hs He1. cbn [prender_parts] in *.
+  assert (Hl : len (map (push 0) (prender b)) = len t0) by (unfold t0; rewrite !len_map; reflexivity).
+  assert (Hl0 : len t0 = len (prender b)) by (unfold t0; apply len_map).
+  destruct (Z_lt_le_dec s (len t0)) as [Hlt|Hge].
+  - (* the range starts in the first part: it ends there too *)
+    rewrite znth_app_l in Hs by lia. rewrite znth_map_d in Hs by reflexivity.
+    apply push_inv in Hs as (path & Hs & ->).
+    assert (He' : e - 1 < len t0).
+    { destruct (Z_lt_le_dec (e - 1) (len t0)) as [H|H]; [exact H|exfalso].
+      rewrite znth_app_r in He1 by lia. rewrite znth_map_d in He1 by reflexivity.
+      apply bump_inv in He1 as (p2 & _ & Hp2). destruct p2; discriminate. }
+    rewrite znth_app_l in He1 by lia. rewrite znth_map_d in He1 by reflexivity.
+    apply push_inv in He1 as (path' & He1 & Heq). inversion Heq; subst path'.
+    exists O, path. split; [reflexivity|]. cbn [in_part off_of]. split; [lia|]. split; [lia|].
+    intros Hok. cbn [leaf_parts map_back_parts concat]. rewrite !Z.sub_0_r in *.
+    rewrite sub_app_l by lia. unfold t0. apply IHbm; try assumption; try lia.
+  - destruct (shift_rest fixed (map (push 0) (prender b)) t0 rest ts' s e new path0 i j Hl IHm)
+      as (k & path & -> & P1 & P2 & Hm); try assumption; try lia.
+    exists (S k), path. split; [reflexivity|]. cbn [in_part off_of concat]. split; [exact P1|]. split; [exact P2|].
+    intros Hok. cbn [leaf_parts map_back_parts]. apply Hm.
+    destruct Hok as [Hf|Hn]; [left; exact Hf|right; exact Hn].
+Qed.
+
+Theorem exact_all fixed : (forall b, exactP fixed b) /\ (forall ps, exactQ fixed ps).
+Proof.
+  apply builder_parts_ind.
+  - apply exact_text.
+  - intros inner IH ps. apply exact_replacer; exact IH.
+  - intros ps IH. apply exact_combiner; exact IH.
+  - apply exact_pnil.
+  - intros t rest IH. apply exact_plit; exact IH.
+  - intros b IHb rest IH. apply exact_psub; assumption.
+Qed.
+
+(* ---------- I. corollaries ---------- *)
+Lemma render_prender b : wf_builder b -> render b = Ok (map fst (prender b)).
+Proof. intros H. exact (proj1 (proj1 (exact_all true) b H)). Qed.
+
+Lemma replacer_text_direct inner ps t : wf_builder (BReplacer inner ps) -> render inner = Ok t ->
+  render (BReplacer inner ps) = Ok (apply_sorted t (map pcore (sort_patches ps))).
+Proof.
+  intros Hwf Hr. pose proof Hwf as [_ Hw]. rewrite Hr in Hw.
+  cbn [render]. rewrite Hr. cbn [bind]. rewrite (replacer_init_ok _ _ Hw). cbn [bind snd].
+  rewrite (apply_sorted_splice t _ 0) by (apply wf_from_wfp; exact Hw). reflexivity.
+Qed.
+
+Lemma endpoints_gen fixed b s e new path i j : wf_builder b -> 0 <= s < e -> e <= len (prender b) ->
+  snd (znth (prender b) s dcell) = Some (path, i) ->
+  snd (znth (prender b) (e - 1) dcell) = Some (path, j - 1) ->
+  fixed = true \/ no_entry_at_end b s e ->
+  exists t v, leaf_at b path = Some (t, v) /\
+    map_back fixed b (s, e, sub (map fst (prender b)) s e, new) = Ok (Some (t, v, (i, j, sub t i j, new))).
+Proof. intros H. apply (proj2 (proj1 (exact_all fixed) b H)). Qed.
+
+Lemma map_back_parts_lit fixed : forall ps k p, part_is_lit ps k = true -> map_back_parts fixed ps k p = Ok None.
+Proof.
+  induction ps as [|t rest IH|b rest IH]; intros [|k] p H; cbn [part_is_lit map_back_parts] in *;
+    try discriminate; try reflexivity; apply IH; exact H.
+Qed.
+
+Lemma combiner_spanning fixed ps ts p k1 k2 :
+  render_parts ps = Ok ts -> in_part ts k1 (p_start p) -> in_part ts k2 (p_end p - 1) -> k1 <> k2 ->
+  map_back fixed (BCombiner ps) p = ValueError.
+Proof.
+  intros Hr H1 H2 Hne. cbn [map_back]. rewrite Hr. cbn [bind].
+  destruct (validate_patch (concat ts) p); [|reflexivity].
+  rewrite !bisect_right_sorted by apply part_offsets_sorted.
+  replace (p_start p) with (p_start p - 0) in H1 by lia. replace (p_end p - 1) with (p_end p - 1 - 0) in H2 by lia.
+  destruct (in_part_count _ _ _ _ H1) as (C1 & _). destruct (in_part_count _ _ _ _ H2) as (C2 & _).
+  rewrite C1, C2.
+  destruct (Z.of_nat k1 + 1 =? Z.of_nat k2 + 1) eqn:E4; [apply Z.eqb_eq in E4; lia|].
+  cbn [negb]. rewrite !orb_true_r. reflexivity.
+Qed.
+
+Lemma combiner_literal fixed ps ts s e new k :
+  render_parts ps = Ok ts -> 0 <= s <= e -> e <= len (concat ts) ->
+  in_part ts k s -> in_part ts k (e - 1) -> part_is_lit ps k = true ->
+  map_back fixed (BCombiner ps) (s, e, sub (concat ts) s e, new) = Ok None.
+Proof.
+  intros Hr Hse He H1 H2 Hl.
+  rewrite (combiner_select fixed ps ts s e _ new k k Hr eq_refl) by assumption.
+  rewrite Nat.eqb_refl. apply map_back_parts_lit. exact Hl.
+Qed.
+
+Lemma in_part_exists : forall ts s, 0 <= s < len (concat ts) -> exists k, in_part ts k s.
+Proof.
+  induction ts as [|t ts IH]; intros s Hs; cbn [concat] in Hs; [unfold len in Hs; cbn in Hs; lia|].
+  rewrite len_app in Hs. destruct (Z_lt_le_dec s (len t)) as [Hlt|Hge].
+  - exists O. cbn [in_part]. lia.
+  - destruct (IH (s - len t)) as [k Hk]; [lia|]. exists (S k). exact Hk.
+Qed.
